@@ -157,3 +157,15 @@ def finish(ctx, explanation, write=True, quiet=False):
         for l in lines:
             print(l)
     return (1 if viol else 0), evidence, lines
+
+
+def run_lifted(ctx, module, sub):
+    """Run another property's rules in a sub-context for lifting.  If that analysis cannot see what it needs (AnalysisError) the host
+    property's own rules still stand: the situation is recorded as a note and the lifted rule contributes nothing."""
+    from .source import AnalysisError
+    try:
+        module.run(sub)
+    except AnalysisError as e:
+        ctx.note('lifted rules of %s could not be evaluated on this tree (%s); they are decided by that property\'s own check' % (sub.prop, str(e)[:160]))
+        sub.findings = [f for f in sub.findings]
+    return sub
